@@ -32,7 +32,8 @@ ASSUMPTIONS = ['html.parser tokenisation; the neutral text for the structure com
                'lone surrogates are outside the catalogue (not encodable)']
 
 ALPHABET = ['{', '}', '#', '/', '<', '>', '"', '&', ':', ' ', '\n', 'x']
-PATHS = [('/', 'GET'), ('/x/y', 'GET'), ('/clastic_assets/nope', 'GET'), ('/<b>{x}', 'GET'), ('/', 'POST'), ('/x/y', 'POST')]
+PATHS = [('/', 'GET'), ('/x/y', 'GET'), ('/clastic_assets/nope', 'GET'), ('/<b>{x}', 'GET'), ('/', 'POST'), ('/x/y', 'POST'),
+         ('/clastic_assets/../x', 'GET'), ('/clastic_assets//etc/passwd', 'GET'), ('/clastic_assets/a/../../b', 'GET')]
 
 
 def deadline_passed():
@@ -237,10 +238,7 @@ def check_text(acc, flaw, family, text, flname, files, neutral_cache):
             bad('raised-%s' % type(res.raised).__name__, 'request %s %s raised %r' % (method, path, res.raised))
             return
         acc.outcome('%s|%s|%s' % (label, flname, res.code))
-        if path.startswith('/clastic_assets/'):
-            if res.code not in (200, 403, 404):
-                bad('assets-status-%s' % res.code, 'asset path answered %s' % res.status)
-            continue
+        # (a path under /clastic_assets/ that is not an asset falls through to the failsafe page like any other)
         if res.code != 200:
             bad('status-%s' % res.code, '%s %s answered %s' % (method, path, res.status), ' body=%r' % (res.body or b'')[:200])
             return
